@@ -1,11 +1,13 @@
 package interp
 
 import (
+	"errors"
 	"fmt"
 	"go/types"
 	"math"
 	"strconv"
 	"strings"
+	"unicode"
 
 	"golang.org/x/tools/go/ssa"
 	"verif/engine/sym"
@@ -398,8 +400,49 @@ func (m *Machine) writeTo(w Value, s Value) Value {
 
 // ---------------------------------------------------------------------------------
 
-func (m *Machine) strconvErr(fn string, s Value) Value {
-	return m.errorsNew(mkStr(append([]Value{}, append(strPieces("strconv."+fn+": parsing "), m.newOpaque("quoted input", true), int64(':'), int64(' '), m.newOpaque("reason", true))...)))
+// strconvSentinel returns the cell of strconv.ErrSyntax / strconv.ErrRange (package
+// strconv is not initialised in the engine: the two sentinels are created on demand).
+func (m *Machine) strconvSentinel(name string) *Value {
+	pkg := m.P.Prog.ImportedPackage("strconv")
+	if pkg == nil {
+		m.unsupported("package strconv not in program")
+	}
+	g, _ := pkg.Members[name].(*ssa.Global)
+	if g == nil {
+		m.unsupported("strconv." + name + " not found")
+	}
+	cell := m.global(g)
+	if i, ok := (*cell).(Iface); ok && i.T == nil {
+		msg := "invalid syntax"
+		if name == "ErrRange" {
+			msg = "value out of range"
+		}
+		*cell = m.errorsNew(msg)
+	}
+	return cell
+}
+
+// strconvErr builds the *strconv.NumError a failed parse returns; rangeErr tells
+// whether it wraps ErrRange (else ErrSyntax).
+func (m *Machine) strconvErr(fn string, s Value, rangeErr bool) Value {
+	pkg := m.P.Prog.ImportedPackage("strconv")
+	if pkg == nil {
+		m.unsupported("package strconv not in program")
+	}
+	named := pkg.Type("NumError").Type()
+	which := "ErrSyntax"
+	if rangeErr {
+		which = "ErrRange"
+	}
+	p := new(Value)
+	*p = Struct{fn, s, *m.strconvSentinel(which)}
+	return Iface{T: types.NewPointer(named), V: p}
+}
+
+// isRangeErr decides (for a symbolic token that failed to parse) whether the failure is
+// a range error, through one more uninterpreted function.
+func (m *Machine) isRangeErr(sfx string, ua []*sym.Term) bool {
+	return m.Branch(m.Ctx.UF("Parse"+sfx, 0, ua...))
 }
 
 func (m *Machine) ufArgs(s Value) ([]*sym.Term, bool) {
@@ -572,16 +615,219 @@ func (m *Machine) intrinsic(caller *frame, fn *ssa.Function, fi *funcInfo, args 
 			}
 		}
 		return mkStr(out), true
-	case "strings.ToUpper", "strings.ToLower", "strings.Title":
+	case "strings.ToUpper", "strings.ToLower":
+		m.Stats.Intrinsics[name] = true
 		if s, ok := args[0].(string); ok {
-			switch name {
-			case "strings.ToUpper":
+			if name == "strings.ToUpper" {
 				return strings.ToUpper(s), true
-			case "strings.ToLower":
-				return strings.ToLower(s), true
+			}
+			return strings.ToLower(s), true
+		}
+		var out []Value
+		for _, b := range strPieces(args[0]) {
+			out = append(out, m.asciiCase(b, name == "strings.ToUpper", name))
+		}
+		return mkStr(out), true
+	case "strings.EqualFold":
+		m.Stats.Intrinsics[name] = true
+		if a, ok := args[0].(string); ok {
+			if b, ok := args[1].(string); ok {
+				return strings.EqualFold(a, b), true
 			}
 		}
-		m.unsupported(name + " on symbolic string")
+		pa, pb := strPieces(args[0]), strPieces(args[1])
+		if len(pa) != len(pb) {
+			// (ASCII: folding never changes the length; non-ASCII ends the path below)
+			for _, b := range append(append([]Value{}, pa...), pb...) {
+				m.asciiCase(b, false, name)
+			}
+			return false, true
+		}
+		var acc Value = true
+		for i := range pa {
+			acc = m.and(acc, m.byteEq(m.asciiCase(pa[i], false, name), m.asciiCase(pb[i], false, name)))
+		}
+		return acc, true
+	case "strings.Count":
+		m.Stats.Intrinsics[name] = true
+		s, sub := strPieces(args[0]), strPieces(args[1])
+		if len(sub) == 0 {
+			m.unsupported("strings.Count with empty substring")
+		}
+		n := int64(0)
+		for i := 0; i+len(sub) <= len(s); {
+			if m.condBool(m.strEq(mkStr(s[i:i+len(sub):i+len(sub)]), mkStr(sub))) {
+				n++
+				i += len(sub)
+			} else {
+				i++
+			}
+		}
+		return n, true
+	case "strings.LastIndex":
+		m.Stats.Intrinsics[name] = true
+		s, sub := strPieces(args[0]), strPieces(args[1])
+		for i := len(s) - len(sub); i >= 0; i-- {
+			if m.condBool(m.strEq(mkStr(s[i:i+len(sub):i+len(sub)]), mkStr(sub))) {
+				return int64(i), true
+			}
+		}
+		return int64(-1), true
+	case "strings.ContainsRune", "strings.IndexRune":
+		m.Stats.Intrinsics[name] = true
+		r, ok := args[1].(int64)
+		if !ok || r >= 0x80 {
+			m.unsupported(name + " with symbolic or non-ASCII rune")
+		}
+		idx := int64(-1)
+		for i, b := range strPieces(args[0]) {
+			if m.condBool(m.byteEq(b, r)) {
+				idx = int64(i)
+				break
+			}
+		}
+		if name == "strings.ContainsRune" {
+			return idx >= 0, true
+		}
+		return idx, true
+	case "strings.ContainsAny", "strings.IndexAny":
+		m.Stats.Intrinsics[name] = true
+		set, ok := args[1].(string)
+		if !ok {
+			m.unsupported(name + " with symbolic character set")
+		}
+		idx := int64(-1)
+	outerAny:
+		for i, b := range strPieces(args[0]) {
+			for k := 0; k < len(set); k++ {
+				if set[k] >= 0x80 {
+					m.unsupported(name + " with non-ASCII set")
+				}
+				if m.condBool(m.byteEq(b, int64(set[k]))) {
+					idx = int64(i)
+					break outerAny
+				}
+			}
+		}
+		if name == "strings.ContainsAny" {
+			return idx >= 0, true
+		}
+		return idx, true
+	case "strings.Trim", "strings.TrimLeft", "strings.TrimRight":
+		m.Stats.Intrinsics[name] = true
+		set, ok := args[1].(string)
+		if !ok {
+			m.unsupported(name + " with symbolic cutset")
+		}
+		inSet := func(b Value) bool {
+			for k := 0; k < len(set); k++ {
+				if set[k] >= 0x80 {
+					m.unsupported(name + " with non-ASCII cutset")
+				}
+				if m.condBool(m.byteEq(b, int64(set[k]))) {
+					return true
+				}
+			}
+			return false
+		}
+		p := strPieces(args[0])
+		lo, hi := 0, len(p)
+		if name != "strings.TrimRight" {
+			for lo < hi && inSet(p[lo]) {
+				lo++
+			}
+		}
+		if name != "strings.TrimLeft" {
+			for hi > lo && inSet(p[hi-1]) {
+				hi--
+			}
+		}
+		return mkStr(p[lo:hi:hi]), true
+	case "strings.Replace", "strings.ReplaceAll":
+		m.Stats.Intrinsics[name] = true
+		s, old, nw := strPieces(args[0]), strPieces(args[1]), strPieces(args[2])
+		limit := int64(-1)
+		if name == "strings.Replace" {
+			limit = m.asInt(args[3])
+		}
+		if len(old) == 0 {
+			m.unsupported(name + " with empty old string")
+		}
+		var out []Value
+		done := int64(0)
+		for i := 0; i < len(s); {
+			if (limit < 0 || done < limit) && i+len(old) <= len(s) && m.condBool(m.strEq(mkStr(s[i:i+len(old):i+len(old)]), mkStr(old))) {
+				out = append(out, nw...)
+				i += len(old)
+				done++
+			} else {
+				out = append(out, s[i])
+				i++
+			}
+		}
+		return mkStr(out), true
+	case "strings.Cut":
+		m.Stats.Intrinsics[name] = true
+		s, sep := strPieces(args[0]), strPieces(args[1])
+		for i := 0; i+len(sep) <= len(s); i++ {
+			if m.condBool(m.strEq(mkStr(s[i:i+len(sep):i+len(sep)]), mkStr(sep))) {
+				return Tuple{mkStr(s[:i:i]), mkStr(s[i+len(sep) : len(s) : len(s)]), true}, true
+			}
+		}
+		return Tuple{args[0], "", false}, true
+	case "strconv.Atoi":
+		m.Stats.Intrinsics[name] = true
+		if s, ok := args[0].(string); ok {
+			v, err := strconv.Atoi(s)
+			if err != nil {
+				return Tuple{int64(v), m.strconvErr("Atoi", args[0], errors.Is(err, strconv.ErrRange))}, true
+			}
+			return Tuple{int64(v), Iface{}}, true
+		}
+		ua, ok := m.ufArgs(args[0])
+		if !ok {
+			m.unsupported("strconv.Atoi on opaque string")
+		}
+		sfx := fmt.Sprintf("b10_s0_L%d", len(ua))
+		if m.Branch(m.Ctx.UF("ParseInt_ok_"+sfx, 0, ua...)) {
+			return Tuple{m.Ctx.UF("ParseInt_val_"+sfx, 64, ua...), Iface{}}, true
+		}
+		return Tuple{m.Ctx.UF("ParseInt_errval_"+sfx, 64, ua...), m.strconvErr("Atoi", args[0], m.isRangeErr("Int_range_"+sfx, ua))}, true
+	case "unicode.IsUpper", "unicode.IsLower", "unicode.IsDigit", "unicode.IsLetter", "unicode.IsSpace":
+		m.Stats.Intrinsics[name] = true
+		switch r := args[0].(type) {
+		case int64:
+			switch name {
+			case "unicode.IsUpper":
+				return unicode.IsUpper(rune(r)), true
+			case "unicode.IsLower":
+				return unicode.IsLower(rune(r)), true
+			case "unicode.IsDigit":
+				return unicode.IsDigit(rune(r)), true
+			case "unicode.IsLetter":
+				return unicode.IsLetter(rune(r)), true
+			}
+			return unicode.IsSpace(rune(r)), true
+		case *sym.Term:
+			c := m.Ctx
+			if !m.Branch(c.Bin(sym.OpUlt, r, c.BV(r.W, 0x80))) {
+				m.unsupported(name + " on a symbolic non-ASCII rune")
+			}
+			rng := func(lo, hi byte) *sym.Term {
+				return c.And(c.Bin(sym.OpUle, c.BV(r.W, uint64(lo)), r), c.Bin(sym.OpUle, r, c.BV(r.W, uint64(hi))))
+			}
+			switch name {
+			case "unicode.IsUpper":
+				return rng('A', 'Z'), true
+			case "unicode.IsLower":
+				return rng('a', 'z'), true
+			case "unicode.IsDigit":
+				return rng('0', '9'), true
+			case "unicode.IsLetter":
+				return c.Or(rng('A', 'Z'), rng('a', 'z')), true
+			}
+			return c.Or(rng(9, 13), c.Eq(r, c.BV(r.W, ' '))), true
+		}
 
 	case "strconv.Itoa":
 		if x, ok := args[0].(int64); ok {
@@ -598,7 +844,7 @@ func (m *Machine) intrinsic(caller *frame, fn *ssa.Function, fi *funcInfo, args 
 		if s, ok := args[0].(string); ok {
 			b, err := strconv.ParseBool(s)
 			if err != nil {
-				return Tuple{false, m.strconvErr("ParseBool", args[0])}, true
+				return Tuple{false, m.strconvErr("ParseBool", args[0], false)}, true
 			}
 			return Tuple{b, Iface{}}, true
 		}
@@ -610,14 +856,14 @@ func (m *Machine) intrinsic(caller *frame, fn *ssa.Function, fi *funcInfo, args 
 		if m.Branch(okT) {
 			return Tuple{m.Ctx.UF(fmt.Sprintf("ParseBool_val_L%d", len(ua)), 0, ua...), Iface{}}, true
 		}
-		return Tuple{false, m.strconvErr("ParseBool", args[0])}, true
+		return Tuple{false, m.strconvErr("ParseBool", args[0], false)}, true
 	case "strconv.ParseInt":
 		m.Stats.Intrinsics[name] = true
 		base, bits := m.asInt(args[1]), m.asInt(args[2])
 		if s, ok := args[0].(string); ok {
 			v, err := strconv.ParseInt(s, int(base), int(bits))
 			if err != nil {
-				return Tuple{v, m.strconvErr("ParseInt", args[0])}, true
+				return Tuple{v, m.strconvErr("ParseInt", args[0], errors.Is(err, strconv.ErrRange))}, true
 			}
 			return Tuple{v, Iface{}}, true
 		}
@@ -630,14 +876,14 @@ func (m *Machine) intrinsic(caller *frame, fn *ssa.Function, fi *funcInfo, args 
 		if m.Branch(okT) {
 			return Tuple{m.Ctx.UF("ParseInt_val_"+sfx, 64, ua...), Iface{}}, true
 		}
-		return Tuple{m.Ctx.UF("ParseInt_errval_"+sfx, 64, ua...), m.strconvErr("ParseInt", args[0])}, true
+		return Tuple{m.Ctx.UF("ParseInt_errval_"+sfx, 64, ua...), m.strconvErr("ParseInt", args[0], m.isRangeErr("Int_range_"+sfx, ua))}, true
 	case "strconv.ParseFloat":
 		m.Stats.Intrinsics[name] = true
 		bits := m.asInt(args[1])
 		if s, ok := args[0].(string); ok {
 			v, err := strconv.ParseFloat(s, int(bits))
 			if err != nil {
-				return Tuple{v, m.strconvErr("ParseFloat", args[0])}, true
+				return Tuple{v, m.strconvErr("ParseFloat", args[0], errors.Is(err, strconv.ErrRange))}, true
 			}
 			return Tuple{v, Iface{}}, true
 		}
@@ -650,7 +896,7 @@ func (m *Machine) intrinsic(caller *frame, fn *ssa.Function, fi *funcInfo, args 
 		if m.Branch(okT) {
 			return Tuple{m.Ctx.UF("ParseFloat_val_"+sfx, 64, ua...), Iface{}}, true
 		}
-		return Tuple{m.Ctx.UF("ParseFloat_errval_"+sfx, 64, ua...), m.strconvErr("ParseFloat", args[0])}, true
+		return Tuple{m.Ctx.UF("ParseFloat_errval_"+sfx, 64, ua...), m.strconvErr("ParseFloat", args[0], m.isRangeErr("Float_range_"+sfx, ua))}, true
 
 	case "fmt.Sprintf":
 		m.Stats.Intrinsics[name] = true
@@ -676,6 +922,30 @@ func (m *Machine) intrinsic(caller *frame, fn *ssa.Function, fi *funcInfo, args 
 	case "fmt.Printf", "fmt.Println", "fmt.Print":
 		return Tuple{int64(0), Iface{}}, true
 
+	case "errors.Is":
+		m.Stats.Intrinsics[name] = true
+		return m.errorsIs(args[0].(Iface), args[1].(Iface), 0), true
+	case "errors.Unwrap":
+		m.Stats.Intrinsics[name] = true
+		e := args[0].(Iface)
+		if e.T != nil && m.hasMethod(e.T, "Unwrap") {
+			if r, ok := m.invoke(e, "Unwrap").(Iface); ok {
+				return r, true
+			}
+		}
+		return Iface{}, true
+	case "(*strconv.NumError).Unwrap":
+		return (*args[0].(*Value)).(Struct)[2], true
+	case "(*strconv.NumError).Error":
+		st := (*args[0].(*Value)).(Struct)
+		inner := m.invoke(st[2].(Iface), "Error")
+		out := append([]Value{}, strPieces("strconv.")...)
+		out = append(out, strPieces(st[0])...)
+		out = append(out, strPieces(": parsing ")...)
+		out = append(out, m.newOpaque("quoted input", true))
+		out = append(out, strPieces(": ")...)
+		out = append(out, strPieces(inner)...)
+		return mkStr(out), true
 	case "os.Getenv":
 		m.Stats.Intrinsics[name] = true
 		k, ok := args[0].(string)
@@ -920,4 +1190,73 @@ func (m *Machine) harnessIntrinsic(name string, args []Value) (Value, bool) {
 		return m.asInt(args[0]), true
 	}
 	return nil, false
+}
+
+// errorsIs follows the documented algorithm of errors.Is (identity, Is method, Unwrap
+// chain) on interpreter values.
+func (m *Machine) errorsIs(err, target Iface, depth int) Value {
+	if err.T == nil || target.T == nil {
+		return err.T == nil && target.T == nil
+	}
+	if depth > 16 {
+		m.unsupported("errors.Is: unwrap chain too deep")
+	}
+	for {
+		if m.identical(err.T, target.T) {
+			if eq, ok := m.equals(err.T, err.V, target.V).(bool); ok && eq {
+				return true
+			}
+		}
+		if m.hasMethod(err.T, "Is") {
+			if r, ok := m.invoke(err, "Is", target).(bool); ok && r {
+				return true
+			}
+		}
+		if !m.hasMethod(err.T, "Unwrap") {
+			return false
+		}
+		next, ok := m.invoke(err, "Unwrap").(Iface)
+		if !ok {
+			m.unsupported("errors.Is: Unwrap returning a list")
+		}
+		if next.T == nil {
+			return false
+		}
+		err = next
+		depth++
+		if depth > 16 {
+			m.unsupported("errors.Is: unwrap chain too deep")
+		}
+	}
+}
+
+// asciiCase maps an ASCII byte to upper or lower case; non-ASCII bytes end the path
+// (outside the modelled domain of the intrinsic).
+func (m *Machine) asciiCase(b Value, upper bool, where string) Value {
+	switch b := b.(type) {
+	case int64:
+		if b >= 0x80 {
+			m.unsupported(where + " on non-ASCII byte")
+		}
+		if upper && b >= 'a' && b <= 'z' {
+			return b - 32
+		}
+		if !upper && b >= 'A' && b <= 'Z' {
+			return b + 32
+		}
+		return b
+	case *sym.Term:
+		c := m.Ctx
+		if !m.Branch(c.Bin(sym.OpUlt, b, c.BV(8, 0x80))) {
+			m.unsupported(where + " on non-ASCII byte")
+		}
+		lo, hi, d := byte('A'), byte('Z'), uint64(32)
+		if upper {
+			lo, hi, d = 'a', 'z', 0xe0 // -32 mod 256
+		}
+		in := c.And(c.Bin(sym.OpUle, c.BV(8, uint64(lo)), b), c.Bin(sym.OpUle, b, c.BV(8, uint64(hi))))
+		return c.Ite(in, c.Bin(sym.OpAdd, b, c.BV(8, d)), b)
+	}
+	m.unsupported(where + " on opaque string")
+	return nil
 }
